@@ -120,7 +120,7 @@ type c15Obs struct {
 	Err     string   `json:"err,omitempty"`
 	Dropped int      `json:"dropped"` // identical neutral samples not recorded
 	MaxSeen int      `json:"max_tracked"`
-	Rounds  int      `json:"rounds"`     // listings of the normalizer
+	Rounds  int      `json:"rounds"`      // listings of the normalizer
 	RoundRq int      `json:"round_forks"` // ForkWorker mutations they requested
 	Note    []string `json:"note,omitempty"`
 }
@@ -993,7 +993,7 @@ func c15ExecPool(in *C15Input) *c15Obs {
 
 // ---------------------------------------------------------------- child processes
 
-func c15Child() {
+func c15Child(outDir string) {
 	dec := json.NewDecoder(os.Stdin)
 	enc := json.NewEncoder(os.Stdout)
 	for {
@@ -1001,7 +1001,20 @@ func c15Child() {
 		if err := dec.Decode(&in); err != nil {
 			return
 		}
-		must(enc.Encode(c15ExecPool(&in)))
+		done := make(chan *c15Obs, 1)
+		go func() { done <- c15ExecPool(&in) }()
+		select {
+		case obs := <-done:
+			must(enc.Encode(obs))
+		case <-time.After(90 * time.Second):
+			// a hang: leave the goroutines behind for diagnosis, the parent counts a crash
+			buf := make([]byte, 1<<20)
+			buf = buf[:runtime.Stack(buf, true)]
+			b, _ := json.Marshal(&in)
+			_ = os.WriteFile(fmt.Sprintf("%s/c15_hang_%d.txt", outDir, os.Getpid()),
+				append(append(b, '\n'), buf...), 0o644)
+			os.Exit(3)
+		}
 	}
 }
 
@@ -1455,7 +1468,7 @@ func c15GenExplore(r *Rng, which string, nStates int) *C15Input {
 
 func runC15(c *Ctx) error {
 	if os.Getenv("AMVERIF_C15_CHILD") != "" {
-		c15Child()
+		c15Child(c.OutDir)
 		return nil
 	}
 	lctx, lcancel := context.WithCancel(context.Background())
